@@ -1,12 +1,17 @@
 #define _GNU_SOURCE
 #include <sys/types.h>
+#include <sys/syscall.h>
 #include <stdint.h>
 #include <string.h>
 #include <stdlib.h>
-/* Deterministic getrandom() for the simulator (loaded with LD_PRELOAD by /verif/check).
- * The stream is per thread: every freshly spawned thread restarts the same xorshift stream, so a
- * simulated run (always executed on its own fresh thread) sees the same "OS entropy" whether it
- * is run 7 of worker 3 in a search or the only run of a replay process. */
+#include <stdarg.h>
+#include <dlfcn.h>
+#include <unistd.h>
+/* Deterministic OS entropy for the simulator (loaded with LD_PRELOAD by /verif/check).
+ * Intercepts getrandom() and the raw syscall(SYS_getrandom, ...) form used by the `getrandom`
+ * crate. The stream is per thread: every freshly spawned thread restarts the same xorshift stream
+ * (optionally re-seeded per run), so a simulated run sees the same "OS entropy" whether it is
+ * run 7 of worker 3 in a search or the only run of a replay process. */
 static __thread uint64_t st = 0;
 static uint64_t base_seed(void) {
     static uint64_t cached = 0;
@@ -14,10 +19,19 @@ static uint64_t base_seed(void) {
     return cached;
 }
 void zsim_getrandom_reseed(uint64_t salt) { st = base_seed() ^ (salt * 0xD1342543DE82EF95ull); if (!st) st = 1; }
-ssize_t getrandom(void *buf, size_t len, unsigned int flags) {
-    (void)flags;
+static ssize_t fill(void *buf, size_t len) {
     if (st == 0) st = base_seed();
     unsigned char *p = buf;
     for (size_t i = 0; i < len; i++) { st ^= st << 13; st ^= st >> 7; st ^= st << 17; p[i] = (unsigned char)(st >> 32); }
     return (ssize_t)len;
+}
+ssize_t getrandom(void *buf, size_t len, unsigned int flags) { (void)flags; return fill(buf, len); }
+long syscall(long number, ...) {
+    static long (*real)(long, ...) = 0;
+    va_list ap; va_start(ap, number);
+    long a1 = va_arg(ap, long), a2 = va_arg(ap, long), a3 = va_arg(ap, long), a4 = va_arg(ap, long), a5 = va_arg(ap, long), a6 = va_arg(ap, long);
+    va_end(ap);
+    if (number == SYS_getrandom) return (long)fill((void *)a1, (size_t)a2);
+    if (!real) real = (long (*)(long, ...))dlsym(RTLD_NEXT, "syscall");
+    return real(number, a1, a2, a3, a4, a5, a6);
 }
